@@ -655,3 +655,28 @@ def check_execute_outcome(ck, rule):
         rer = hs and any(isinstance(st_, ast.Raise) and st_.exc is None for st_ in hs[0].ast.body)
         ck.require(bool(rer), rule, "%s: exception re-raised" % q.fn(fex), "bare raise in the handler",
                    "the task's exception is swallowed by execute (the worker cannot log it; callers see no failure)", q.loc(fex, n))
+
+
+def base_exception_layers(prog):
+    """Which layers between a registered callable and socketserver catch *every* exception of the callable (bare `except:` or
+    `except BaseException`), found structurally: the try of _dispatch enclosing the invocation of the looked-up callable, the
+    try of _marshaled_single_dispatch enclosing the dispatch, the try of do_POST enclosing the dispatcher call."""
+    fdis = prog.func(SRV, DISP + "._dispatch")
+    fsd = prog.func(SRV, DISP + "._marshaled_single_dispatch")
+    fpo = prog.func(SRV, "SimpleJSONRPCRequestHandler.do_POST")
+
+    def catches_base(fn, calls):
+        for t in ast.walk(fn.node):
+            if isinstance(t, ast.Try) and any(sub is c for c in calls for st_ in t.body for sub in ast.walk(st_)):
+                if any(h.type is None or dump(h.type) == "BaseException" for h in t.handlers):
+                    return True
+        return False
+    inv = [c for (_n, c, _h, _hc) in callable_invocations(prog)]
+    disp_calls = [c for c in ast.walk(fsd.node) if isinstance(c, ast.Call) and (
+        call_name(c) == "_dispatch" or (isinstance(c.func, ast.Name) and c.func.id in fsd.params))]
+    post_calls = [c for c in ast.walk(fpo.node) if isinstance(c, ast.Call) and call_name(c) == "_marshaled_dispatch"]
+    if not inv or not disp_calls or not post_calls:
+        raise AnalysisError("anchor vanished: invocation / dispatch / dispatcher call sites (%d/%d/%d)" % (len(inv), len(disp_calls), len(post_calls)))
+    return {"_dispatch (around the method call)": catches_base(fdis, inv),
+            "_marshaled_single_dispatch (around the dispatch)": catches_base(fsd, disp_calls),
+            "do_POST (around the whole request)": catches_base(fpo, post_calls)}
